@@ -105,19 +105,19 @@ PROPS["C16"] = {
           what="heap-backed Queue<Tracked>", bounds="unwind 9; CAP 2, 4 steps"),
         H("c16::c16_queue_get", covers=1, timeout=900, mem_gb=4,
           what="FixedSizeQueue<u8,3>::get(i) for every fill level / ring phase", bounds="unwind 8; 5 steps"),
-        H("c16::c16_fixed_slotmap_history", covers=3, timeout=7200, mem_gb=30, tiers=("thorough",),
+        H("c16::c16_fixed_slotmap_history", unwindset={"next_available_key_after": 3}, covers=3, timeout=7200, mem_gb=30, tiers=("thorough",),
           what="FixedSizeSlotMap<Tracked,2>: insert/insert_at/remove/get/contains/next_free_key/iteration vs model; drops",
           bounds="unwind 9; CAP 2, 3 steps, keys 0..=CAP"),
-        H("c16::c16_owning_slotmap_history", covers=3, timeout=1500, mem_gb=8, tiers=("quick",),
+        H("c16::c16_owning_slotmap_history", unwindset={"next_available_key_after": 3}, covers=3, timeout=1500, mem_gb=8, tiers=("quick",),
           what="heap-backed SlotMap<Tracked>(2), same obligations", bounds="unwind 9; CAP 2, 3 steps"),
-        H("c16::c16_owning_slotmap_history_deep", covers=3, timeout=7200, mem_gb=24, tiers=("thorough",),
+        H("c16::c16_owning_slotmap_history_deep", unwindset={"next_available_key_after": 3}, covers=3, timeout=7200, mem_gb=24, tiers=("thorough",),
           what="heap-backed SlotMap<Tracked>(2), 5 steps", bounds="unwind 9; CAP 2, 5 steps"),
-        H("c16::c16_flatmap_history", covers=2, timeout=1500, mem_gb=8, tiers=("quick",),
+        H("c16::c16_flatmap_history", unwindset={"next_available_key_after": 3}, covers=2, timeout=1500, mem_gb=8, tiers=("quick",),
           what="heap-backed FlatMap<u8,Tracked>(2): insert (duplicate / full errors)/remove/get/get_ref/contains/list_keys vs model",
           bounds="unwind 9; CAP 2, 3 steps, 3 keys"),
-        H("c16::c16_flatmap_history_deep", covers=2, timeout=7200, mem_gb=24, tiers=("thorough",),
+        H("c16::c16_flatmap_history_deep", unwindset={"next_available_key_after": 3}, covers=2, timeout=7200, mem_gb=24, tiers=("thorough",),
           what="FlatMap, 5 steps", bounds="unwind 9; CAP 2, 5 steps"),
-        H("c16::c16_fixed_flatmap_history", covers=2, timeout=7200, mem_gb=30, tiers=("thorough",),
+        H("c16::c16_fixed_flatmap_history", unwindset={"next_available_key_after": 3}, covers=2, timeout=7200, mem_gb=30, tiers=("thorough",),
           what="FixedSizeFlatMap<u8,Tracked,2> (relocatable flavour), 3 steps", bounds="unwind 9; CAP 2, 3 steps"),
         H("c16::c16_string_history_grow", covers=2, timeout=1500, mem_gb=8, tiers=("quick",),
           what="StaticString<3>: push/insert/insert_bytes/pop over the full byte range vs model; NUL termination",
@@ -265,9 +265,12 @@ PROPS["C14"] = {
 
 # RobustUniqueIndexSet::acquire: loop .0 is the scan over the cells (capacity + 1 unwindings), loop .1 the retry when
 # the generation counter moved during the scan.  In the sequential harnesses nothing moves (bound 2), in the recovery
-# race acquire only runs as an uninterrupted inner operation (bound 2 as well); unwinding assertions stay on.
+# race acquire only runs as an uninterrupted inner operation (bound 2 as well).  Recovery race, capacity 2: scans need
+# 3 unwindings; the generation-counter CAS of the preempted recovery can fail once per inner operation (budget 2):
+# bound 4.  Unwinding assertions stay on for every one of these loops.
 _ROBUST_SEQ = {"RobustUniqueIndexSet7acquire&.1": 2, "RobustUniqueIndexSet28increment_generation_counter": 2}
-_ROBUST_RACE = {"RobustUniqueIndexSet7acquire&.1": 2}
+_ROBUST_RACE = {"RobustUniqueIndexSet7acquire&.1": 2, "RobustUniqueIndexSet7acquire&.0": 3,
+                "RobustUniqueIndexSet7recover": 3, "RobustUniqueIndexSet28increment_generation_counter": 4}
 PROPS["C09"] = {
     "bounds": "capacities 1..=4, sequential histories of 4-6 symbolic acquire/release(lock-if-last) operations; robust "
               "set with 2 owners incl. recover; schedules: outer thread preempted before any shared-memory operation, "
@@ -393,21 +396,49 @@ PROPS["C14"]["harnesses"] += [
       what="shm pool allocator: the same 3-step history over two differently placed segments yields identical offsets",
       bounds="unwind 8; placements shifted by 0/16/32 bytes"),
 ]
+# the system types are 255-byte strings: CBMC keeps arrays above 64 elements as one array-theory object; raising the
+# field-sensitivity limit makes every byte its own SSA symbol, so accesses at concrete positions cost nothing
+_FS256 = ("--max-field-sensitivity-array-size", "300")
+_ISO_B = "unwind 12; prefixes and names of exactly 2 bytes from [a-z0-9_] (lengths concrete, bytes symbolic)"
 PROPS["C19"]["harnesses"] += [
-    H("cal::c19iso::c19_domain_isolation", features=CAL, covers=2, timeout=3000, mem_gb=14,
+    # quick tier: the file name / path is written down directly and each harness makes one or two calls of the real
+    # extract_name_from_file / extract_name_from_path (255-byte strings: every call costs millions of variables);
+    # c19_path_for_shape ties the directly written form to what path_for really produces
+    H("cal::c19iso::c19_path_for_shape", features=CAL, covers=0, timeout=2400, mem_gb=14, tiers=("quick",),
+      what="NamedConceptConfiguration::path_for produces exactly <root>/<prefix><name><suffix> (lies under the root)",
+      bounds=_ISO_B),
+    H("cal::c19iso::c19_cross_domain_direct", features=CAL, covers=2, timeout=2400, mem_gb=14, tiers=("quick",),
+      what="extract_name_from_file: a name round-trips through its own domain; a domain with an unrelated prefix or a "
+           "different suffix never extracts a name from the file", bounds=_ISO_B),
+    H("cal::c19iso::c19_cross_domain_direct_mixed_len", features=CAL, covers=2, timeout=2400, mem_gb=14, tiers=("quick",),
+      what="same with prefixes of different length (1 and 2 bytes): non-interference whenever neither prefix is a "
+           "prefix of the other", bounds="unwind 12; prefix lengths 1/2, names of 2 bytes"),
+    H("cal::c19iso::c19_cross_domain_direct_prefix_of_prefix", features=CAL, covers=0, timeout=2400, mem_gb=14,
+      tiers=("quick",), known="F-C19-1",
+      what="the class excluded above: one prefix is a proper prefix of the other (open known finding F-C19-1)",
+      bounds="unwind 12; prefix lengths 1/2, names of 2 bytes"),
+    H("cal::c19iso::c19_root_direct_own_and_unrelated", features=CAL, covers=0, timeout=2400, mem_gb=14, tiers=("quick",),
+      what="extract_name_from_path: own root recognised (name round-trips), unrelated root never matches", bounds=_ISO_B),
+    H("cal::c19iso::c19_root_direct_nested", features=CAL, covers=0, timeout=2400, mem_gb=14, tiers=("quick",),
+      what="a nested root never matches, in either direction", bounds=_ISO_B),
+    H("cal::c19iso::c19_root_direct_sibling", features=CAL, covers=0, timeout=2400, mem_gb=14, tiers=("quick",),
+      what="a sibling root that is a string prefix (/r vs /rr) never matches", bounds=_ISO_B),
+    H("cal::c19iso::c19_root_direct_same_spelling", features=CAL, covers=0, timeout=2400, mem_gb=14, tiers=("quick",),
+      what="an equivalent spelling of the root (/r/) is the same domain", bounds=_ISO_B),
+    # thorough tier: the same statements through path_for + FilePath::file_name (25-30 M variables each)
+    H("cal::c19iso::c19_domain_isolation", features=CAL, covers=2, timeout=5400, mem_gb=30, tiers=("thorough",),
       what="NamedConceptConfiguration::path_for / extract_name_from_file / extract_name_from_path: own names "
            "round-trip; domains with unrelated prefixes, different suffix or different root never see the file",
-      bounds="unwind 12; prefixes and names of exactly 2 bytes from [a-z0-9_] (lengths concrete, bytes symbolic)"),
-    H("cal::c19iso::c19_domain_isolation_mixed_len", features=CAL, covers=2, timeout=3000, mem_gb=14,
-      what="same with prefixes of different length (1 and 2 bytes): non-interference whenever neither prefix is a prefix "
-           "of the other", bounds="unwind 12; prefix lengths 1/2, names of 2 bytes"),
-    H("cal::c19iso::c19_root_isolation", features=CAL, covers=1, timeout=3000, mem_gb=14,
-      what="extract_name_from_path: a different root (unrelated, nested, sibling string-prefix) never matches in either "
-           "direction; an equivalent spelling of the root is the same domain; created paths lie under the root",
+      bounds=_ISO_B),
+    H("cal::c19iso::c19_domain_isolation_mixed_len", features=CAL, covers=2, timeout=5400, mem_gb=30, tiers=("thorough",),
+      what="same with prefixes of different length (1 and 2 bytes)", bounds="unwind 12; prefix lengths 1/2, names of 2 bytes"),
+    H("cal::c19iso::c19_root_isolation", features=CAL, covers=1, timeout=7200, mem_gb=30, tiers=("thorough",),
+      what="extract_name_from_path through path_for: a different root (unrelated, nested, sibling string-prefix) never "
+           "matches in either direction; an equivalent spelling of the root is the same domain",
       bounds="unwind 12; names of 1-2 bytes, 3 foreign roots"),
-    H("cal::c19iso::c19_domain_isolation_prefix_of_prefix", features=CAL, covers=0, timeout=3000, mem_gb=14,
-      known="F-C19-1",
-      what="the class excluded above: one prefix is a proper prefix of the other (open known finding F-C19-1)",
+    H("cal::c19iso::c19_domain_isolation_prefix_of_prefix", features=CAL, covers=0, timeout=5400, mem_gb=30,
+      tiers=("thorough",), known="F-C19-1",
+      what="one prefix is a proper prefix of the other, through path_for (open known finding F-C19-1)",
       bounds="unwind 12; prefix lengths 1/2, names of 2 bytes"),
 ]
 
